@@ -13,7 +13,7 @@ SPEC = {
         # Props/C03Gen.lean: the translated arms of orbit / orbit_transac and the push lists of the 3-D identifier walks are
         # the images of the model
         "C03_gen_orbit2_arms", "C03_gen_orbit2_complete", "C03_gen_orbit2_plain_eq_transac",
-        "C03_gen_orbit3_arms", "C03_gen_orbit3_complete", "C03_gen_orbit3_plain_eq_transac", "C03_gen_id_pushes3", "C03_gen_id_pushes2", "C03_gen_id_walks2_eq_arms", "C03_gen_edgeId2",
+        "C03_gen_orbit3_arms", "C03_gen_orbit3_complete", "C03_gen_orbit3_plain_eq_transac", "C03_gen_id_pushes3", "C03_gen_id_pushes2", "C03_gen_id_walks2_eq_arms", "C03_gen_edgeId2", "C03_gen_cell_iters", "C03_gen_iterators2", "C03_gen_iterators3", "interpCellIter_eq",
         "C03_generic_bfs",
         "C03_orbit2_spec",
         "C03_orbit2_volume_panics",
